@@ -1076,9 +1076,18 @@ pub fn gen_module(rng: &mut Rng, cfg: &GenCfg) -> Generated {
     let mut imported_globals: Vec<(u32, VT)> = vec![];
     let nimports = rng.below(6);
     let mut n_import_entries = 0;
+    let mut last_import: Option<(String, String)> = None;
     for k in 0..nimports {
-        let module = rng.pick(&["env", "host", ""]).to_string();
-        let field = format!("{}{}", rand_name(rng), k);
+        let mut module = rng.pick(&["env", "host", ""]).to_string();
+        let mut field = format!("{}{}", rand_name(rng), k);
+        // import names need not be unique: sometimes reuse the previous entry's (module, field)
+        if let Some((m0, f0)) = &last_import {
+            if rng.chance(1, 6) {
+                module = m0.clone();
+                field = f0.clone();
+            }
+        }
+        last_import = Some((module.clone(), field.clone()));
         match rng.below(4) {
             0 => {
                 let t = rng.below(types.len() as u64) as u32;
